@@ -201,7 +201,9 @@ func (r *replRun) openLeader() error {
 
 func liveIDs(q queue.Queue) []int {
 	out := []int{}
-	for s := q.AcknowledgedSeq() + 1; s <= q.AppendedSeq(); s++ {
+	// (a live range of more than a few thousand positions is not a state these histories can reach on a conforming
+	// tree; the positions are logged next to it, so the list may stop there)
+	for s := q.AcknowledgedSeq() + 1; s <= q.AppendedSeq() && len(out) < 5000; s++ {
 		b, err := q.Get(s)
 		if err != nil {
 			out = append(out, -2)
